@@ -362,7 +362,7 @@ impl<const D: usize, const F: usize, const V: usize> LWorld<D, F, V> {
 
     pub fn fingerprint(&self) -> Fp {
         let mut h = FpHasher::new();
-        h.str(&format!("{:?}", self.vm));
+        h.str(&crate::util::debug_string(&self.vm));
         self.disk.0.borrow().img.hash_into(&mut h);
         h.str(&format!("{:?}", self.m));
         h.finish()
